@@ -33,6 +33,9 @@ type Net struct {
 	ConnectHang  map[string]bool
 	// Links records every link created, in order.
 	Links []*pipe.Link
+	// OnLink, if set, is called with every new link before either end is
+	// handed out (attach taps here); n is the connection index.
+	OnLink func(addr string, n int, l *pipe.Link)
 }
 
 var (
@@ -169,6 +172,9 @@ func (n *Net) Dial(ctx context.Context, addr string) (*pipe.End, error) {
 	n.mu.Lock()
 	n.Links = append(n.Links, link)
 	n.mu.Unlock()
+	if n.OnLink != nil {
+		n.OnLink(addr, idx, link)
+	}
 	n.Sim.Logf("connect %s #%d", addr, idx)
 	if srv != nil {
 		go srv(link.B, link)
